@@ -1,0 +1,39 @@
+//go:build verif
+
+// Verification hooks (build tag "verif"): add-only access to unexported state of the exporting
+// process for the checks under /verif. Nothing here is compiled without the tag.
+
+package exporter
+
+import "sort"
+
+// VerifSetSeq overwrites the sequence counter (to start a session close to the 2^32 wrap).
+// Not synchronized: call it before any concurrent use of the process.
+func (ep *ExportingProcess) VerifSetSeq(n uint32) {
+	ep.seqNumber = n
+}
+
+// VerifSeq returns the current sequence counter.
+func (ep *ExportingProcess) VerifSeq() uint32 {
+	return ep.seqNumber
+}
+
+// VerifTemplateIDs returns the ids present in the templates map, sorted.
+func (ep *ExportingProcess) VerifTemplateIDs() []uint16 {
+	ep.templateMutex.Lock()
+	defer ep.templateMutex.Unlock()
+	ids := make([]uint16, 0, len(ep.templatesMap))
+	for id := range ep.templatesMap {
+		ids = append(ids, id)
+	}
+	sort.Slice(ids, func(i, j int) bool { return ids[i] < ids[j] })
+	return ids
+}
+
+// VerifTemplateFieldCount returns the number of elements registered for a template id.
+func (ep *ExportingProcess) VerifTemplateFieldCount(id uint16) (int, bool) {
+	ep.templateMutex.Lock()
+	defer ep.templateMutex.Unlock()
+	t, ok := ep.templatesMap[id]
+	return len(t.elements), ok
+}
